@@ -191,6 +191,7 @@ def run(ctx):
     ctx.attempt(history_state_reset_rule, ctx)
     ctx.attempt(live_embedding_rule, ctx)
     ctx.attempt(model_event_rule, ctx)
+    ctx.attempt(current_mesh_observed_rule, ctx)
     from ..shared import memo_result_escape_rule as _memo_result_escape_rule
 
     ctx.attempt(_memo_result_escape_rule, ctx, "R14.24", lambda f: f.qualname.startswith("EasyFEA."), 20)
@@ -845,3 +846,58 @@ def model_event_rule(ctx, rid="R14.25"):
             else:
                 bad = sorted(k for k in want if got.get(k) != want[k])
                 r.fail(fU.qualname, f"model-event:{label}", fU.file, fU.lineno, f"{ci.name}._Update", f"{ci.name}: after a model event from {label} the flag(s) {bad} are not what Need_Update() leaves ({ {k: got.get(k) for k in bad} } instead of { {k: want[k] for k in bad} }): an assembled system that depends on the model is served stale after a parameter of the model changed")
+
+
+def current_mesh_observed_rule(ctx, rid="R14.26"):
+    """'moving, rotating, reflecting, re-coordinating ... the mesh ... restoring an earlier iteration': whatever mesh is the
+    CURRENT mesh of a simulation, the simulation observes it (otherwise a later modification of that mesh leaves the
+    assembled matrices stale).  `_Simu.__Update_mesh` - the path Set_Iter takes to another mesh of the history - is
+    interpreted for a mesh kept in memory and for a mesh that `Save` replaced by its file path (it is then loaded from
+    disk: a new object nobody observes yet); afterwards the simulation must be among the observers of `self.mesh`
+    (interpreted with the repository's own Observable), the memo cleared and the flag raised."""
+    from ..xeval import Interp, XObj, XRaise, Sink, FuncInfo
+
+    repo = ctx.repo
+    simu = repo.cls(SIMU)
+    mesh_ci = repo.cls(MESH)
+    f = repo.lookup_method(simu, simu.mangle("__Update_mesh"))
+    r = ctx.rule(rid, "after Set_Iter switches to another mesh of the history (__Update_mesh), the simulation observes its current mesh - for a mesh kept in memory and for one reloaded from the path Save left in the history", min_instances=2)
+    for label, stored in (("mesh kept in memory", "object"), ("mesh reloaded from the path left by Save", "path")):
+        r.instance(fn=f.qualname)
+        loaded = XObj(mesh_ci, {})
+        inmem = XObj(mesh_ci, {})
+        cleared = []
+
+        def hook(fn, args, kwargs):
+            fi = fn if isinstance(fn, FuncInfo) else getattr(fn, "finfo", None)
+            if fi is not None and fi.name == "Load_Mesh":
+                return loaded
+            if fi is not None and fi.name == "clear_cached_computed_values":
+                cleared.append(args[0])
+                return None
+            if fi is not None and fi.module.name.endswith(("Folder", "Terminal")):
+                return "joined-path"
+            return NotImplemented
+
+        I = Interp(repo, extra_builtins={"Folder": Sink()})
+        I.call_hook = hook
+        obj = XObj(simu, {"folder": "F", "_Simu__listMesh": ["Meshes/mesh0.pickle" if stored == "path" else inmem], "_Simu__mesh": None})
+        if stored == "object":
+            # a mesh of the in-memory history was registered when it was assigned (mesh setter / constructor)
+            I.call_function(repo.lookup_method(mesh_ci, "_Add_observer"), [obj], self_obj=inmem)
+        try:
+            I.call_function(f, [0], self_obj=obj)
+            cur = obj.attrs.get("_Simu__mesh")
+            observers = I.call_function(repo.lookup_method(mesh_ci, "observers"), [], self_obj=cur) if cur is not None else []
+        except XRaise as e:
+            r.fail(f.qualname, f"observed:{stored}", f.file, f.lineno, "_Simu.__Update_mesh", f"{label}: raises {e}")
+            continue
+        want = loaded if stored == "path" else inmem
+        if cur is not want:
+            r.fail(f.qualname, f"observed:{stored}", f.file, f.lineno, "_Simu.__Update_mesh", f"{label}: the current mesh is not the mesh of the requested index")
+        elif not any(o is obj for o in observers):
+            r.fail(f.qualname, f"observed:{stored}", f.file, f.lineno, "_Simu.__Update_mesh", f"{label}: after the switch the simulation is not an observer of its current mesh: moving / re-coordinating that mesh notifies nobody and the next matrices are those of the old geometry")
+        elif not cleared or not obj.attrs.get("_Updatable__needUpdate", obj.attrs.get("needUpdate", True)):
+            r.fail(f.qualname, f"stale:{stored}", f.file, f.lineno, "_Simu.__Update_mesh", f"{label}: the memoised values are not cleared / the flag is not raised after the switch")
+        else:
+            r.ok(f"{label}: observed, memo cleared, flag raised")
